@@ -10,7 +10,7 @@ RULE = ("split/break: network R-p1-J1-p2-J2-p3-T (+ J2-p4-J3 dead end) in the va
         "networks with branch / series / parallel patterns next to tanks, pumps, valves and controlled elements x all diameter "
         "assignments over {0.1, 0.3} (thorough {0.1,0.2,0.3}) x thresholds {0.05, 0.1, 0.2, 0.3} x on/off combinations of branch/"
         "series/parallel x max_cycles {None, 1} x exclusion lists {none, each pipe, each junction} x use_epanet {F, T}; demands "
-        "carry two patterns of coprime length.  oracles: see DESIGN section 4 C19.  non-trivial: split/break with 0 < fraction < 1; "
+        "carry two patterns of coprime length (and, in a variant, constant entries next to a non-flat default pattern that was added later).  oracles: see DESIGN section 4 C19.  non-trivial: split/break with 0 < fraction < 1; "
         "skeletonize runs that remove >= 1 junction")
 ASSUMPTIONS = ["the hydraulic-equivalence clause of split_pipe is evaluated for 0 < fraction < 1 on pipes without minor loss (the documented rule 'the new pipe has the same minor loss' doubles the total minor loss)",
                "status of the new pipe is compared with the original pipe's initial status on a model in its initial state"]
@@ -272,6 +272,8 @@ def sk_cases(tier):
                                 out.append(dict(base, excl_j=[j]))
                         if tier != "quick" or (thr == 0.3 and dia[0] == dalph[0]):
                             out.append(dict(base, epanet=True))
+                        if name in ("branch", "series_tank", "pump", "branch_neg", "series_neg", "valve_leaf") and thr in (0.2, 0.3):
+                            out.append(dict(base, late_default=True))
     return out
 
 
@@ -298,6 +300,13 @@ def run_sk(c):
     for l, d in zip(pipes, c["dia"]):
         l["D"] = d
     wn = build(s)
+    if c.get("late_default"):
+        # a default pattern ('1') that is added AFTER the junctions exist: their pattern-less demand entries stay constant
+        wn.add_pattern("1", [1.0, 2.0, 0.5])
+        for n_ in s["nodes"]:           # ... explicitly constant ("if None, the value will be constant")
+            for i_, (b_, p_, c_) in enumerate(n_.get("demands") or []):
+                if p_ is None:
+                    wn.get_node(n_["n"]).demand_timeseries_list[i_].pattern_name = None
     viol = []
     nodes0 = list(wn.node_name_list)
     keep_expected = set(wn.tank_name_list) | set(wn.reservoir_name_list)
